@@ -48,8 +48,8 @@ func distinctMemberLoop(c *core.Ctx, rule string, fn *ssa.Function, isKeys, isPe
 						hasKeys = true
 					}
 				}
-				if !hasKeys {
-					continue
+				if !hasKeys && h.Pkg != fn.Pkg {
+					continue // the keys themselves, or (same package) the object they are a field of, are handed over
 				}
 				unbind := ir.BindParams(h, cl.Common().Args)
 				ls := eng.FindSliceLoops(h, isKeys)
